@@ -72,6 +72,32 @@ fn flow<S: Sch>(cfg: &KeyCfg, seed: u64, big: Option<S::P>) -> Result<Outputs, S
     phase(&mut ph);
     let d2 = check_batch::<S>(&keys, &comms, &qs, &bad, &b.proof, 0, seed, 0);
     out.push(("decisions".into(), format!("{}/{}", d1.class(), d2.class()).into_bytes()));
+    // every claim of a larger batch (three point labels, two of them sharing a point, all polynomials at each)
+    // falsified in turn: the decisions of a verifier whose work is split by thread count or schedule must not
+    // depend on either - in particular no position of a batch may go unchecked for some pool size
+    {
+        let mut q3 = QuerySet::<S::Pt>::new();
+        for p in c.polys.iter() {
+            for (ln, z) in labels.iter() {
+                q3.insert((p.label().clone(), (ln.clone(), z.clone())));
+            }
+        }
+        phase(&mut ph);
+        if let Ok(b3) = open_batch::<S>(&keys, &c, &[0, 1, 2], &q3, 0, seed, 0) {
+            out.push(("batch3-proof".into(), ser(&b3.proof)));
+            phase(&mut ph);
+            let mut ds = String::new();
+            ds.push_str(check_batch::<S>(&keys, &comms, &q3, &b3.evals, &b3.proof, 0, seed, 0).class());
+            let keys_of: Vec<_> = b3.evals.keys().cloned().collect();
+            for k in keys_of.iter() {
+                let mut bad = b3.evals.clone();
+                *bad.get_mut(k).unwrap() += S::F::one();
+                ds.push('/');
+                ds.push_str(check_batch::<S>(&keys, &comms, &q3, &bad, &b3.proof, 0, seed, 0).class());
+            }
+            out.push(("batch3-decisions(true,each-claim-false)".into(), ds.into_bytes()));
+        }
+    }
     phase(&mut ph);
     if let Ok(s) = open_single::<S>(&keys, &c, &[0, 1], &labels[0].1, 0, seed, 0) {
         let bp: BPf<S> = vec![s.proof.clone()].into();
@@ -155,6 +181,21 @@ fn flow_special(which_full: &str, seed: u64) -> Result<Outputs, String> {
                 let d = kzg_check(&vk, &c, r[40], p.evaluate(&r[40]), &pf);
                 let d2 = kzg_batch_check(&vk, &[c, c], &[r[40], r[40]], &[p.evaluate(&r[40]), p.evaluate(&r[40]) + Fr381::one()], &[pf, pf], seed, 0);
                 out.push((format!("decisions/h={:?}", h), format!("{}/{}", d.class(), d2.class()).into_bytes()));
+                // batches of 5 and 7 openings at different points, every position falsified in turn
+                for n in [5usize, 7] {
+                    let zs: Vec<Fr381> = (0..n).map(|i| r[41 + i]).collect();
+                    let pfs: Vec<_> = zs.iter().map(|z| Kzg::open(&powers, &p, *z, &st)).collect::<Result<Vec<_>, _>>().map_err(|e| format!("{:?}", e))?;
+                    let vs: Vec<Fr381> = zs.iter().map(|z| p.evaluate(z)).collect();
+                    let cs = vec![c; n];
+                    let mut ds = kzg_batch_check(&vk, &cs, &zs, &vs, &pfs, seed, 0).class().to_string();
+                    for i in 0..n {
+                        let mut bad = vs.clone();
+                        bad[i] += Fr381::one();
+                        ds.push('/');
+                        ds.push_str(kzg_batch_check(&vk, &cs, &zs, &bad, &pfs, seed, 0).class());
+                    }
+                    out.push((format!("batch{}-decisions/h={:?}", n, h), ds.into_bytes()));
+                }
             }
         }
         "MLP" => {
